@@ -212,11 +212,25 @@ func checkC09(c *Check) {
 			sawErrDeny := false
 			for _, b := range region {
 				for _, ins := range b.Instrs {
-					if cc, ok := ins.(*ssa.Call); ok && cc.Common().StaticCallee() == R.DenyWriter {
-						d := resolveCell(stripConv(cc.Common().Args[1]))
+					cc, ok := ins.(*ssa.Call)
+					if !ok || cc.Common().StaticCallee() == nil {
+						continue
+					}
+					// the denial is written here, or by a small helper of the handler's package that does nothing else
+					// (`denySessionError(resp)`)
+					in, site := pr, cc
+					if callee := cc.Common().StaticCallee(); callee != R.DenyWriter && pkgPathOf(callee) == pkgAuthz && callee != R.Redirect {
+						for _, di := range callsToFn(callee, R.DenyWriter) {
+							if dc, isC := di.(*ssa.Call); isC {
+								in, site = callee, dc
+							}
+						}
+					}
+					if site.Common().StaticCallee() == R.DenyWriter {
+						d := resolveCell(stripConv(site.Common().Args[1]))
 						plain := true
 						for _, w := range []*headerWriter{m.LocationWriter, m.SetCookieWriter} {
-							for _, li := range callsToFn(pr, w.Fn) {
+							for _, li := range callsToFn(in, w.Fn) {
 								if sameVal(li.Common().Args[w.DenyIdx], d) {
 									plain = false
 								}
